@@ -138,3 +138,367 @@ def variant_targets(adt, sw_term):
     """variant name -> target block of a discriminant switch."""
     listed = dict(sw_term[2])
     return {v['n']: listed.get(v['d'], sw_term[3]) for v in adt['variants']}
+
+
+def table_calls(f, defs, table_field, meth_re):
+    """calls HashMap::<meth> whose receiver is the field `table_field` (directly or through a guard deref)"""
+    out = []
+    for c in A.calls(f):
+        if not re.search(r'HashMap::<K, V, S, A>::(%s)$' % meth_re, c.generic) or not c.args or c.args[0][0] == 'k':
+            continue
+        fs = A.place_fields(c.args[0][1])
+        if not fs:
+            fs, _ = A.origin_fields(f, c.args[0][1][0], defs)
+        if any(x.endswith(table_field) for x in fs):
+            out.append(c)
+    return out
+
+
+def holder_only_release(rep, rule, fns, table_field, owner_field, what):
+    """Every removal from a lock table is (a) behind the true edge of `<owner_field> == <a parameter>` or (b) removes a key that
+    was selected from the table itself in the same function (iter/filter over the table: the entry that matched is the entry
+    removed). Keys that come from a secondary per-transaction list can be stale — an expired lock may have been taken over —
+    so they need (a). Returns the number of removal sites."""
+    n = 0
+    for name, f in sorted(fns.items()):
+        defs = A.Defs(f)
+        rm = table_calls(f, defs, table_field, 'remove|retain|clear|drain|remove_entry')
+        if not rm:
+            continue
+        rep.analysed(f)
+        iters = table_calls(f, defs, table_field, 'iter|iter_mut|keys|values')
+        for k, c in enumerate(rm):
+            n += 1
+            how = None
+            for (a, s_) in A.must_pass_edges(f, c.bb):
+                l = switch_local(f, a)
+                d = A.single_def(defs, l) if l is not None else None
+                if not d or d[2] != 'st' or d[3][1][0] != 'bin' or d[3][1][1] not in ('Eq', 'Ne'):
+                    continue
+                t = f.bbs[a]['t']
+                if not all(v == '0' for v, _ in t[2]):
+                    continue
+                taken_nonzero = (s_ == t[3])
+                want_nonzero = d[3][1][1] == 'Eq'
+                sides = [A.backward_slice(f, [d[3][1][i]], defs) for i in (2, 3)]
+                has_owner = any(any(x.endswith(owner_field) for x in sl.fields) for sl in sides)
+                has_param = any(sl.params for sl in sides)
+                if has_owner and has_param and taken_nonzero == want_nonzero:
+                    how = 'behind %s == <parameter>' % owner_field.split('::')[-1]
+            if how is None and c.generic.endswith('::remove') and len(c.args) > 1 and c.args[1][0] != 'k':
+                sl = A.backward_slice(f, [c.args[1]], defs)
+                if any(ic.dest[0] in sl.locals for ic in iters):
+                    how = 'key selected from the table itself in this critical section'
+            if how:
+                rep.holds(rule, f, 'remove#%d' % k, how)
+            else:
+                rep.violation(rule, f, 'unowned-release', f.loc(c.line),
+                              'a %s is removed from the table without checking that the releasing transaction still holds it: after '
+                              'an expired lock was taken over (the acquire overwrites it but the key stays in the old holder\'s list), the old '
+                              'holder\'s late release deletes the new holder\'s live lock and a third transaction is granted the key' % what)
+    return n
+
+
+def forward_taint(f, seeds):
+    """locals whose value is derived (flow-insensitively) from the seed locals: assignments mentioning a tainted local,
+    and results of calls that take one as an argument"""
+    t = set(seeds)
+    changed = True
+    while changed:
+        changed = False
+        for b in f.bbs:
+            if b['cleanup']:
+                continue
+            for st in b['s']:
+                d = st[0][0]
+                if d in t:
+                    continue
+                rv = st[1]
+                ls = set()
+                for op in A.rvalue_operands(rv):
+                    if op[0] != 'k':
+                        ls.add(op[1][0])
+                for pl in A.rvalue_places(rv):
+                    ls.add(pl[0])
+                if ls & t:
+                    t.add(d)
+                    changed = True
+            tm = b['t']
+            if tm[0] == 'call':
+                d = tm[4][0]
+                if d not in t and any(a[0] != 'k' and a[1][0] in t for a in tm[3]):
+                    t.add(d)
+                    changed = True
+    return t
+
+
+def provenance_fields(f, defs, op, max_nodes=400):
+    """Fields read on the *data* path of a value: follows copies/moves/refs/casts/aggregates and, through calls, only the
+    first argument (receiver / the collection being transformed) — not sizes, ranges or other parameters.
+    Returns (fields, params, callees)."""
+    fields, params, callees = set(), set(), set()
+    work = []
+
+    def add_place(pl):
+        for x in A.place_fields(pl):
+            fields.add(x)
+        work.append(pl[0])
+
+    if op[0] != 'k':
+        add_place(op[1])
+    seen = set()
+    while work and len(seen) < max_nodes:
+        l = work.pop()
+        if l in seen:
+            continue
+        seen.add(l)
+        if 1 <= l <= f.argc:
+            params.add(l)
+        for (_, _, k, p) in defs.defs.get(l, []):
+            if k == 'st':
+                rv = p[1]
+                if rv[0] in ('ref', 'disc'):
+                    add_place(rv[1])
+                for o in A.rvalue_operands(rv):
+                    if o[0] != 'k':
+                        add_place(o[1])
+            elif k == 'call':
+                callees.add(p.resolved)
+                if p.args and p.args[0][0] != 'k':
+                    add_place(p.args[0][1])
+    provenance_fields.last_locals = set(seen)
+    return fields, params, callees
+
+
+def val_sig(f, defs, op, depth=0):
+    """structural identity of an integer value: constants, len() / slice metadata of a named buffer, sums, casts;
+    otherwise the (root) local. Equal signatures = same value as long as nothing in between reassigns the named locals."""
+    if op[0] == 'k':
+        v = A._const_val(op[1])
+        return ('k', v if v is not None else op[1])
+    l, proj = op[1][0], op[1][1]
+    if depth > 12:
+        return ('l', l)
+    d = A.single_def(defs, l)
+    if proj:
+        if d and d[2] == 'st' and d[3][1][0] == 'bin' and d[3][1][1].endswith('WithOverflow') and str(proj[0]).lstrip('.#') == '0':
+            rv = d[3][1]
+            return (rv[1].replace('WithOverflow', ''),) + tuple(sorted([val_sig(f, defs, rv[2], depth + 1), val_sig(f, defs, rv[3], depth + 1)], key=repr))
+        return ('p', l, tuple(map(str, proj)))
+    if not d:
+        return ('l', l)
+    if d[2] == 'st':
+        rv = d[3][1]
+        if rv[0] == 'use':
+            return val_sig(f, defs, rv[1], depth + 1)
+        if rv[0] == 'bin' and rv[1] in ('Add', 'Sub', 'Mul'):
+            a, b = val_sig(f, defs, rv[2], depth + 1), val_sig(f, defs, rv[3], depth + 1)
+            return (rv[1],) + (tuple(sorted([a, b], key=repr)) if rv[1] != 'Sub' else (a, b))
+        if rv[0] == 'cast':
+            return val_sig(f, defs, rv[1], depth + 1)
+        if rv[0] == 'un' and rv[1] == 'PtrMetadata':
+            return ('len',) + _buffer_root(f, defs, rv[2])
+        if rv[0] == 'len':
+            return ('len', rv[1][0], tuple(map(str, rv[1][1])))
+        return ('l', l)
+    if d[2] == 'call':
+        c = d[3]
+        if re.search(r'::len$', c.resolved) and c.args and c.args[0][0] != 'k':
+            return ('len',) + _buffer_root(f, defs, c.args[0])
+    return ('l', l)
+
+
+def _buffer_root(f, defs, op, depth=0):
+    """the named buffer a reference / slice value points at: follows copies, reborrows and deref-to-slice calls"""
+    if op[0] == 'k':
+        return (op[1], ())
+    l, proj = op[1][0], [p for p in op[1][1] if str(p) != '*']
+    if proj or depth > 8:
+        return (l, tuple(map(str, proj)))
+    d = A.single_def(defs, l)
+    if d and d[2] == 'st':
+        rv = d[3][1]
+        if rv[0] == 'ref':
+            pl = rv[1]
+            inner = [p for p in pl[1] if str(p) != '*']
+            if not inner:
+                return _buffer_root(f, defs, ['c', [pl[0], []]], depth + 1)
+            return (pl[0], tuple(map(str, inner)))
+        if rv[0] in ('use', 'cast'):
+            return _buffer_root(f, defs, rv[1], depth + 1)
+    if d and d[2] == 'call' and re.search(r'Deref(Mut)?>::deref(_mut)?$|::as_bytes$|::as_slice$|::as_str$|::as_ref$', d[3].resolved) and d[3].args:
+        return _buffer_root(f, defs, d[3].args[0], depth + 1)
+    return (l, ())
+
+
+def _assigned_between(f, start, stop_bb, root):
+    """is local `root` assigned on a path from block `start` to block `stop_bb`?"""
+    F = A.reachable(f, [start], cut_blocks={stop_bb}) | {stop_bb}
+    preds = A.preds_map(f)
+    B = {stop_bb}
+    work = [stop_bb]
+    while work:
+        x = work.pop()
+        for p_ in preds.get(x, ()):
+            if p_ not in B:
+                B.add(p_)
+                work.append(p_)
+    for bb in F & B:
+        if bb == stop_bb:
+            continue
+        b = f.bbs[bb]
+        for st in b['s']:
+            if st[0][0] == root and not st[0][1]:
+                return True
+        if b['t'][0] == 'call' and b['t'][4][0] == root:
+            return True
+    return False
+
+
+def undischarged_bounds(f):
+    """bounds-check asserts (slice/array indexing that panics when index >= len) not discharged by a must-pass test
+    `index < len` on the same index value and the same buffer's length. Returns [(bb, line, why)], and the count examined."""
+    out = []
+    n = 0
+    defs = None
+    for i, b in enumerate(f.bbs):
+        t = b['t']
+        if b['cleanup'] or t[0] != 'assert' or t[1] != 'bounds' or len(t) < 6:
+            continue
+        n += 1
+        defs = defs or A.Defs(f)
+        isig, lsig = val_sig(f, defs, t[4]), val_sig(f, defs, t[5])
+        if isig[0] == 'k' and lsig[0] == 'k' and isinstance(isig[1], int) and isinstance(lsig[1], int) and isig[1] < lsig[1]:
+            continue
+        ok = False
+        for (a, s_) in A.must_pass_edges(f, i):
+            l = switch_local(f, a)
+            d = A.single_def(defs, l) if l is not None else None
+            if not d or d[2] != 'st' or d[3][1][0] != 'bin' or d[3][1][1] not in ('Lt', 'Gt'):
+                continue
+            sw = f.bbs[a]['t']
+            if not all(v == '0' for v, _ in sw[2]) or s_ != sw[3]:
+                continue
+            rv = d[3][1]
+            small, big = (rv[2], rv[3]) if rv[1] == 'Lt' else (rv[3], rv[2])
+            if val_sig(f, defs, small) == isig and val_sig(f, defs, big) == lsig:
+                roots = [x[1] for x in (isig,) if x[0] == 'l']
+                if not any(_assigned_between(f, s_, i, r_) for r_ in roots):
+                    ok = True
+        if not ok and isig[0] == 'k' and isinstance(isig[1], int) and lsig[0] == 'len':
+            # constant index: a must-pass test that bounds the same buffer's length from below
+            lb = _len_lower_bound(f, defs, i, lsig)
+            if lb is not None and isig[1] < lb:
+                ok = True
+        if not ok:
+            out.append((i, t[3], 'index %s, length %s' % (isig, lsig)))
+    return out, n
+
+
+def _len_lower_bound(f, defs, bb, lsig):
+    """largest k such that a must-pass edge to bb implies len >= k for the buffer named by lsig
+    (is_empty() false edge: 1; len < k false edge / len >= k true edge: k; len > k true: k+1; len == k true: k)"""
+    best = None
+    for (a, s_) in A.must_pass_edges(f, bb):
+        l = switch_local(f, a)
+        d = A.single_def(defs, l) if l is not None else None
+        sw = f.bbs[a]['t']
+        if not d or not all(v == '0' for v, _ in sw[2]):
+            continue
+        taken_true = (s_ == sw[3])
+        k = None
+        if d[2] == 'call' and re.search(r'::is_empty$', d[3].resolved) and d[3].args and d[3].args[0][0] != 'k':
+            if ('len',) + _buffer_root(f, defs, d[3].args[0]) == lsig and not taken_true:
+                k = 1
+        elif d[2] == 'st' and d[3][1][0] == 'bin' and d[3][1][1] in ('Lt', 'Le', 'Gt', 'Ge', 'Eq', 'Ne'):
+            rv = d[3][1]
+            a_, b_ = val_sig(f, defs, rv[2]), val_sig(f, defs, rv[3])
+            op = rv[1]
+            if b_ == lsig and a_[0] == 'k':
+                a_, b_ = b_, a_
+                op = {'Lt': 'Gt', 'Gt': 'Lt', 'Le': 'Ge', 'Ge': 'Le', 'Eq': 'Eq', 'Ne': 'Ne'}[op]
+            if a_ == lsig and b_[0] == 'k' and isinstance(b_[1], int):
+                c = b_[1]
+                if taken_true:
+                    k = {'Ge': c, 'Gt': c + 1, 'Eq': c}.get(op)
+                else:
+                    k = {'Lt': c, 'Le': c + 1, 'Ne': c}.get(op)
+        if k is not None and (best is None or k > best):
+            best = k
+    return best
+
+
+RANGE_INDEX = re.compile(r'ops::Index(Mut)?<I> for \[T\]>::index(_mut)?$|as std::ops::Index(Mut)?<I>>::index(_mut)?$|Index(Mut)?<.*Range.*>>::index(_mut)?$|'
+                         r'::(split_at|split_at_mut|split_off)$')
+
+
+def _le_guard(f, defs, bb, small_sig, big_sig):
+    """must-pass test implying small <= big (small < big or small <= big on the taken edge)"""
+    for (a, s_) in A.must_pass_edges(f, bb):
+        l = switch_local(f, a)
+        d = A.single_def(defs, l) if l is not None else None
+        sw = f.bbs[a]['t']
+        if not d or d[2] != 'st' or d[3][1][0] != 'bin' or not all(v == '0' for v, _ in sw[2]):
+            continue
+        rv = d[3][1]
+        taken_true = (s_ == sw[3])
+        x, y = val_sig(f, defs, rv[2]), val_sig(f, defs, rv[3])
+        op = rv[1]
+        if (x, y) == (big_sig, small_sig):
+            x, y = y, x
+            op = {'Lt': 'Gt', 'Gt': 'Lt', 'Le': 'Ge', 'Ge': 'Le'}.get(op, op)
+        if (x, y) != (small_sig, big_sig):
+            continue
+        if (taken_true and op in ('Lt', 'Le', 'Eq')) or (not taken_true and op in ('Gt', 'Ge')):
+            return True
+    return False
+
+
+def undischarged_ranges(f):
+    """range-index / split_at calls on slices (panic when a bound exceeds the length) whose bounds are not discharged:
+    a bound is fine when it is the buffer's own len(), a constant not above a must-pass lower bound of the length, or
+    is covered by a must-pass test bound <= len."""
+    out = []
+    n = 0
+    defs = None
+    for c in A.calls(f):
+        if c.exp or not RANGE_INDEX.search(c.resolved) or len(c.args) < 2:
+            continue
+        defs = defs or A.Defs(f)
+        lsig = ('len',) + _buffer_root(f, defs, c.args[0])
+        bounds = []
+        a1 = c.args[1]
+        if a1[0] == 'k':
+            continue   # RangeFull
+        d = A.single_def(defs, a1[1][0]) if not a1[1][1] else None
+        if d and d[2] == 'st' and d[3][1][0] == 'agg' and re.search(r'ops::Range(From|To|Inclusive|ToInclusive)?$', d[3][1][1]):
+            kind = d[3][1][1].split('::')[-1]
+            ops = d[3][1][2]
+            incl = 1 if 'Inclusive' in kind else 0
+            # the last operand is the upper bound except for RangeFrom
+            ub = ops[0] if kind in ('RangeFrom', 'RangeTo', 'RangeToInclusive') else ops[-1]
+            bounds = [(ub, incl)]
+        elif re.search(r'::(split_at|split_at_mut|split_off)$', c.resolved):
+            bounds = [(a1, 0)]
+        elif d and d[2] == 'st' and d[3][1][0] == 'agg' and d[3][1][1].endswith('RangeFull'):
+            continue
+        else:
+            if f.locals[a1[1][0]] in ('usize',):
+                continue   # plain index handled by the bounds-check assert
+            if 'RangeFull' in f.locals[a1[1][0]]:
+                continue
+            bounds = [(a1, 0)]
+        n += 1
+        for (b_, incl) in bounds:
+            bs = val_sig(f, defs, b_)
+            if incl == 0 and bs == lsig:
+                continue
+            if bs[0] == 'k' and isinstance(bs[1], int):
+                lb = _len_lower_bound(f, defs, c.bb, lsig)
+                if bs[1] + incl <= (lb or 0):
+                    continue
+            if incl == 0 and _le_guard(f, defs, c.bb, bs, lsig):
+                continue
+            out.append((c.bb, c.line, 'bound %s%s, length %s' % (bs, ' (inclusive)' if incl else '', lsig)))
+            break
+    return out, n
